@@ -263,7 +263,8 @@ theorem preservation_fields_blanks_to (ks : List String) (hk : fieldKeys ks = ([
   refine ⟨rfl, ?_, ?_⟩
   · intro hw
     obtain ⟨e, he, hne⟩ := hw.1
-    rw [stepFields_eq] at he
+    obtain ⟨e0, he0, _⟩ := h.1
+    rw [stepFields_eq ks t e0 he0] at he
     cases he
     exact hne (hto _)
   · exact ws_fields (E := laxTo) ks (Or.inr rfl) (fun _ => Or.inl trivial) (wellShaped_present h)
